@@ -57,6 +57,39 @@ Theorem C01_spec_sorted :
   forall h : list (mut K V), sorted cmp (s_build cmp h).
 Proof. intros K V cmp TO h. apply (SpecFacts.s_build_from_sorted cmp TO h []). exact I. Qed.
 
+(** The tables returned by SelectMatch / PartitionMatch are tables of their own: when a history
+    [h2] of mutators and then any abstract operations [ops] continue ON such a result, the outputs
+    are again those of the sorted association list (started from the filtered map). *)
+Theorem C01_selection_continues :
+  forall (K V : Type) (cmp : K -> K -> Z) (eqv : V -> V -> bool), TotalOrder cmp ->
+  forall (i : impl) (h : list (mut K V)) (p : K -> V -> bool) (h2 : list (mut K V)) (ops : list (op K V)),
+    forallb abstract_op ops = true ->
+    exists t t' t'', build cmp i h = Ok t /\ SelectMatch cmp i p t = Ok t' /\
+      build_from cmp i t' h2 = Ok t'' /\
+      run_from cmp eqv i t'' ops =
+        map Ok (s_run_from cmp eqv (s_build_from cmp (filter (holds p) (s_build cmp h)) h2) ops).
+Proof.
+  intros K V cmp eqv TO i h p h2 ops HA.
+  destruct (selection_all cmp eqv TO i h p h2 ops HA) as (t & t' & t'' & E1 & E2 & E3 & _ & E4 & E5).
+  exists t, t', t''. rewrite <- E4. auto.
+Qed.
+
+Theorem C01_partition_continues :
+  forall (K V : Type) (cmp : K -> K -> Z) (eqv : V -> V -> bool), TotalOrder cmp ->
+  forall (i : impl) (h : list (mut K V)) (p : K -> V -> bool) (second : bool)
+         (h2 : list (mut K V)) (ops : list (op K V)),
+    forallb abstract_op ops = true ->
+    exists t ta tb t'', build cmp i h = Ok t /\ PartitionMatch cmp i p t = (Ok ta, Ok tb) /\
+      build_from cmp i (if second then tb else ta) h2 = Ok t'' /\
+      run_from cmp eqv i t'' ops =
+        map Ok (s_run_from cmp eqv
+                  (s_build_from cmp (filter (fun e => if second then negb (holds p e) else holds p e) (s_build cmp h)) h2) ops).
+Proof.
+  intros K V cmp eqv TO i h p second h2 ops HA.
+  destruct (partition_all cmp eqv TO i h p second h2 ops HA) as (t & ta & tb & t'' & E1 & E2 & E3 & _ & E4 & E5).
+  exists t, ta, tb, t''. rewrite <- E4. auto.
+Qed.
+
 (** What Equal means: with Leibniz equality on values and an antisymmetric comparator, the
     abstract answer [s_equal] is true exactly when the two maps hold the same pairs. *)
 Theorem C01_equal_meaning :
@@ -116,3 +149,5 @@ Print Assumptions C01_spec_sorted.
 Print Assumptions C01_comparators.
 Print Assumptions C01_equal_meaning.
 Print Assumptions C01_early_exit.
+Print Assumptions C01_selection_continues.
+Print Assumptions C01_partition_continues.
